@@ -301,6 +301,9 @@ def program_cases(tier: str) -> List[tuple]:
     progs = list(programs.linear_programs(2, kinds, ('cont_a', 'wait_d', 'cont', 'wait'), ('ret', 'ret_none', 'unsucc', 'stop_f', 'killcmd', 'raise')))
     small = list(programs.linear_programs(2, ('S', 'Y1'), ('cont_a', 'wait_d'), ('ret',)))
     progs += list(programs.with_actions(small, ('out', 'status')))
+    # outputs / a status set before the process is killed or fails: the terminal snapshots must carry them too
+    ending_badly = list(programs.linear_programs(2, ('S', 'Y1'), ('cont', 'wait_d'), ('raise', 'killcmd', 'unsucc')))
+    progs += list(programs.with_actions(ending_badly, ('out', 'status'), wheres=('pre',)))
     if tier != 'quick':
         progs += list(programs.linear_programs(3, ('S', 'G'), ('cont_a', 'wait_d'), ('ret', 'raise'), min_len=3))
     cases = []
